@@ -217,6 +217,9 @@ def kinds(tier):
     K['Skein-mac'] = Kind('Skein-mac', lambda: Skein(256, 256, key=b'key', prs=b'prs', nonce=b'n'), sev, sibling=lambda: Skein(256, 256, key=b'other'))
     K['Skein-schema'] = Kind('Skein-schema', lambda: Skein(256, 256), [sev[0], sev[1], sev[4]], sibling=lambda: Skein(256, 256, schema=b'CRSP', version=2))
     K['Skein-schema-rev'] = Kind('Skein-schema-rev', lambda: Skein(512, 512, schema=b'CRSP', version=2, key=b'k'), [sev[0], sev[1], sev[4]], sibling=lambda: Skein(512, 512, key=b'k'))
+    K['Skein-prs-vs-nonce'] = Kind('Skein-prs-vs-nonce', lambda: Skein(256, 256, prs=b'same-string'), [sev[0], sev[1], sev[4]], sibling=lambda: Skein(256, 256, nonce=b'same-string'))
+    K['Skein-PK-vs-kdf'] = Kind('Skein-PK-vs-kdf', lambda: Skein(256, 256, prs=b'a', PK=b'bb'), [sev[0], sev[1], sev[4]], sibling=lambda: Skein(256, 256, prs=b'a', kdf=b'bb'))
+    K['Skein-key-vs-prs'] = Kind('Skein-key-vs-prs', lambda: Skein(512, 512, key=b'zz', nonce=b'n'), [sev[0], sev[1], sev[4]], sibling=lambda: Skein(512, 512, prs=b'zz', nonce=b'n'))
     K['Skein-tree'] = Kind('Skein-tree', lambda: Skein(256, 256, Yl=1, Yf=1, Ym=2), [sev[0], sev[1], sev[4]], sibling=lambda: Skein(256, 256, Yl=2, Yf=1, Ym=3))
     K['HMAC-MD5'] = Kind('HMAC-MD5', lambda: HMAC(MD5(), b'key'),
                          [('mac(m1)', lambda o, s: o(m1), True), ('mac(m2)', lambda o, s: o(m2), True),
@@ -230,7 +233,11 @@ def kinds(tier):
     tev = [('h(long)', lambda o, s: o(long_), True), ('h(short)', lambda o, s: o(m1), True), ('h(100B,force)', lambda o, s: o(long_[:100], True), True),
            ('h(100B)', lambda o, s: o(long_[:100]), True), ('h(uniform)', lambda o, s: o(b'a' * 400), True),
            ('update-unfinished', lambda o, s: o.update(m2) and None, False),
-           ('from_hash', lambda o, s: o.from_hash(bytes(range(1, 36))) and None, False), sib_call('sibling-h(m3)')]
+           ('from_hash', lambda o, s: o.from_hash(bytes(range(1, 36))) and None, False),
+           ('from_hash(truncated)!', lambda o, s: o.from_hash(bytes(range(1, 20))) and None, True),
+           ('h(list with a bad element)!', lambda o, s: o(list(long_[:300]) + ['x'] + list(long_[:50])), True),
+           ('update(list with a bad element)!', lambda o, s: o.update(list(long_[:300]) + [None]) and None, False),
+           sib_call('sibling-h(m3)')]
     K['TLSH-128'] = Kind('TLSH-128', lambda: TLSH(128), tev, sibling=lambda: TLSH(256, 4, 3))
     K['tlsh'] = Kind('tlsh', None, tev, sibling=lambda: TLSH(256, 4, 3), singleton=('crysp.tlsh', 'tlsh'))
     K['Nilsimsa'] = Kind('Nilsimsa', lambda: Nilsimsa(), [('h(m1)', lambda o, s: o(m1), True), ('h(m2)', lambda o, s: o(m2), True), ('h(empty)', lambda o, s: o(b''), True),
@@ -268,6 +275,23 @@ def kinds(tier):
                                ('CBC-AES', lambda: Mo.CBC(AES(ramp(16)), ramp(16, 9, 4)), 16, True, lambda: Mo.CBC(AES(ramp(16)), bytes(16))),
                                ('CBC-DES-x923', lambda: Mo.CBC(DES(ramp(8, 3, 1)), ramp(8, 9, 4), pad=X923), 8, True, lambda: Mo.ECB(DES(ramp(8, 3, 1))))):
         K[nm] = Kind(nm, mk, mode_events(mk, n, cbc), sibling=sb)
+    X2 = ramp(32, 3, 1)
+    for nm, mk in (('ECB-AES-nopad', lambda: Mo.ECB(AES(ramp(16)), pad=nopadding)), ('CBC-AES-nopad', lambda: Mo.CBC(AES(ramp(16)), ramp(16, 9, 4), pad=nopadding))):
+        K[nm] = Kind(nm, mk, [('enc(X)', lambda o, s: o.enc(X2), True), ('dec(X)', lambda o, s: o.dec(X2), True),
+                              ('enc(enc(X))', lambda o, s: o.enc(o.enc(X2)[-32:]), True), ('dec(dec(X))', lambda o, s: o.dec(o.dec(X2).ljust(32, b'q')[:32]), True),
+                              ('sibling-dec(X)', lambda o, s: s.dec(X2), True)], sibling=mk)
+
+    class SharedCounterPair(object):
+        """two CTR objects built on ONE DefaultCounter instance"""
+        def __init__(self):
+            c = Mo.DefaultCounter(16).setup(ramp(8, 5, 1), (3).to_bytes(8, 'big'))
+            self.A = Mo.CTR(AES(ramp(16)), c)
+            self.B = Mo.CTR(AES(ramp(16)), c)
+    K['CTR-pair-sharing-a-counter'] = Kind('CTR-pair-sharing-a-counter', SharedCounterPair,
+                                           [('A.enc(1 block)', lambda o, s: o.A.enc(ramp(16, 3, 1)), True), ('A.enc(2 blocks)', lambda o, s: o.A.enc(ramp(32, 3, 1)), True),
+                                            ('B.dec(1 block)', lambda o, s: o.B.dec(ramp(16, 5, 2)), True), ('B.dec(2 blocks)', lambda o, s: o.B.dec(ramp(32, 5, 2)), True),
+                                            ('B.enc(3 blocks)', lambda o, s: o.B.enc(ramp(48, 7, 2)), True)])
+    K['CTR-pair-sharing-a-counter'].depth = {'quick': 4, 'thorough': 5}
     K['CTR-AES'] = Kind('CTR-AES', lambda: Mo.CTR(AES(ramp(16)), ramp(16, 5, 250)),
                         [('enc(m1)', lambda o, s: o.enc(m1), True), ('enc(40B)', lambda o, s: o.enc(ramp(40, 3, 2)), True), ('dec(40B)', lambda o, s: o.dec(ramp(40, 5, 1)), True),
                          ('enc(empty)', lambda o, s: o.enc(b''), True), ('sibling-enc', lambda o, s: s.enc(m3), True)], sibling=lambda: Mo.CTR(AES(ramp(16)), bytes(16)))
@@ -319,7 +343,7 @@ def depth(tier):
 
 def subchecks():
     return [hsub('histories', systems, depth,
-                 bound='53 object kinds (SHA1/SHA0/SHA2/SHA3/Keccak/MD4/MD5/MD6 x3/Blake x2/Blake2 x2/Skein x4/HMAC x2/TLSH/Nilsimsa/AES x2/DES/TDEA/Serpent/Threefish x2/ECB x2/CBC x2/CTR/CTS x2/Salsa20/Chacha/crc and the module singletons keccak_256, blake256, blake2b, blake2s, tlsh), each with 4-9 events (one-shot calls incl. per-call options and calls that raise; perturbations: unfinished updates, duplex, suspended keystream generators, sibling instances, shared inner objects); all histories to depth 3 (thorough 5), deduplicated by the canonical state of object + sibling; the module- and class-level state of the library is part of the canonical state (histories that change it are explored further) and reference answers come from forked children that start from the import-time state')]
+                 bound='59 object kinds (SHA1/SHA0/SHA2/SHA3/Keccak/MD4/MD5/MD6 x3/Blake x2/Blake2 x2/Skein x4/HMAC x2/TLSH/Nilsimsa/AES x2/DES/TDEA/Serpent/Threefish x2/ECB x2/CBC x2/CTR/CTS x2/Salsa20/Chacha/crc and the module singletons keccak_256, blake256, blake2b, blake2s, tlsh), each with 4-9 events (one-shot calls incl. per-call options and calls that raise; perturbations: unfinished updates, duplex, suspended keystream generators, sibling instances, shared inner objects); all histories to depth 3 (thorough 5), deduplicated by the canonical state of object + sibling; the module- and class-level state of the library is part of the canonical state (histories that change it are explored further) and reference answers come from forked children that start from the import-time state')]
 
 
 RULE = 'BFS over call histories per object kind; an observation is the returned bytes or the exception class; distinct_nontrivial counts distinct (kind,event,result) observations'
